@@ -16,6 +16,7 @@ TECH = ("value numbering of the circumcentre formula (exact identity |U-A|=|U-B|
 
 def check(ctx):
     repo = ctx.repo
+    ctx.rule("R07.7", "every hole of the device is handed to the mesh generator (the hole list is not filtered)", 1)
     ctx.rule("R07.6", "generate_mesh hands the triangulator one coordinate frame: outline, hole outlines, hole markers and boundary points "
                       "are all shifted by the same offset, and the result is shifted back", 1)
     ctx.rule("R07.5", "a constructed mesh is never modified: Mesh/EdgeMesh attributes are written by the constructors only", 1)
@@ -120,6 +121,7 @@ def check(ctx):
     ctx.ob("R07.3", "edges are matched to triangles as unordered pairs", len(keys) == 2, detail=keys, where=fd.fq, construct="edge keys",
            message=f"edge keys: {keys}", consequence="an edge misses one of its two triangles")
     mesher_frames(ctx)
+    holes_passed(ctx)
     cell_area_signs(ctx)
     ctx.decline("tiling of film minus holes, Euler characteristic, positive orientation and non-degeneracy of triangles (Triangle/meshpy), "
                 "clipped Voronoi areas of boundary cells (qhull convex hulls), terminal length 'to within one edge' (matplotlib path "
@@ -328,3 +330,25 @@ def mesher_frames(ctx):
            detail={"sites": sinks, "offset": off}, where=f.fq, construct="coordinate frames in generate_mesh (summary)", loc=loc(f, fn),
            message="generate_mesh no longer centres its coordinates consistently" if not problems else "see the frame errors above",
            consequence="see above")
+
+
+def holes_passed(ctx):
+    repo = ctx.repo
+    f = repo.func("tdgl.device.device", "Device.make_mesh")
+    calls = [c for c in own_nodes(f.node) if isinstance(c, ast.Call) and norm(c.func).split(".")[-1] == "generate_mesh"]
+    if len(calls) != 1:
+        raise AnalysisError("Device.make_mesh no longer calls generate_mesh exactly once")
+    hc = next((k.value for k in calls[0].keywords if k.arg == "hole_coords"), calls[0].args[1] if len(calls[0].args) > 1 else None)
+    from ..dataflow import expand
+    hc = expand(f.node, hc) if hc is not None else None
+    ok = isinstance(hc, (ast.ListComp, ast.GeneratorExp)) and len(hc.generators) == 1 and not hc.generators[0].ifs \
+        and norm(hc.generators[0].iter) == "self.holes" and isinstance(hc.elt, ast.Attribute) and hc.elt.attr == "points" \
+        and norm(hc.elt.value) == norm(hc.generators[0].target)
+    outline = calls[0].args[0] if calls[0].args else next((k.value for k in calls[0].keywords if k.arg == "poly_coords"), None)
+    ok = ok and outline is not None and norm(outline) == "self.film.points"
+    ctx.ob("R07.7", "generate_mesh(self.film.points, hole_coords=[h.points for h in self.holes]) - all holes, unfiltered", bool(ok),
+           detail={"hole_coords": norm(hc) if hc is not None else None, "outline": norm(outline) if outline is not None else None},
+           where=f.fq, construct="holes handed to the mesher", loc=loc(f, calls[0]),
+           message=f"make_mesh hands the mesher `{norm(hc) if hc is not None else None}`: not every hole of the device is carved out",
+           consequence="a hole that is skipped (e.g. one whose Polygon.mesh flag is False, as set on every polygon once used as a terminal) stays in "
+                       "device.holes but is meshed over: the triangulation does not tile film minus holes")
